@@ -388,6 +388,41 @@ def r10_9(ctx) -> None:
     ctx.count("R10.9", n, 15, "(entry, escaping exception, origin) triples of the claims validators")
 
 
+BUILTIN_CLAIM_RULES = {"aud", "exp", "nbf", "iat"}
+
+
+def r10_10(ctx) -> None:
+    """R10.10  "claims without a request or built-in rule are ignored": validate() dispatches on the claim NAME to a method `validate_<name>`, so the
+    set of built-in rules is the set of such methods on the registry classes.  It is exactly {aud, exp, nbf, iat}: a helper that happens to be called
+    validate_<something> silently becomes a rule for a claim of that name."""
+    eng = ctx.eng
+    cr = eng.prog.cls("rfc7519.registry:ClaimsRegistry")
+    n = 0
+    seen = set()
+    for c in [cr] + cr.all_subclasses():
+        for name, m in sorted(c.methods.items()):
+            if not name.startswith("validate_"):
+                continue
+            n += 1
+            claim = name[len("validate_"):]
+            seen.add(claim)
+            ctx.check(claim in BUILTIN_CLAIM_RULES, "R10.10", m, m.node, f"{m.short}", f"{c.name}.{name} is reachable through the validate_<claim name> dispatch: a claim literally named "
+                      f"`{claim}` is now judged by it although the statement gives that claim no built-in rule", f"validate_<name> only for {sorted(BUILTIN_CLAIM_RULES)}",
+                      construct=f"dispatch target validate_{claim}")
+    miss = BUILTIN_CLAIM_RULES - seen
+    ctx.check(not miss, "R10.10", None, None, "built-in claim rules", f"built-in rules vanished for {sorted(miss)}", "aud, exp, nbf, iat", construct="built-in claim rule set")
+    # the dispatch itself: getattr(self, "validate_" + key, None)
+    v = cr.methods.get("validate")
+    if v is None:
+        raise AnalysisError("ClaimsRegistry.validate vanished")
+    disp = [x for x in fn_nodes(v) if isinstance(x, ast.Call) and isinstance(x.func, ast.Name) and x.func.id == "getattr" and len(x.args) >= 2]
+    okd = any(isinstance(x.args[1], ast.BinOp) and const_value(x.args[1].left) == "validate_" for x in disp) or \
+        any(isinstance(x.args[1], ast.JoinedStr) and x.args[1].values and const_value(x.args[1].values[0]) == "validate_" for x in disp)
+    ctx.check(okd, "R10.10", v, v.node, "validate :: dispatch", "validate() no longer dispatches on 'validate_' + claim name (the rule about the method set does not describe it any more)",
+              "getattr(self, 'validate_' + key, None)", construct="claims dispatch form")
+    ctx.count("R10.10", n, 4, "validate_<claim> methods")
+
+
 def run(ctx) -> None:
     ctx.guard(r10_1_2_3)
     ctx.guard(r10_4)
@@ -395,5 +430,6 @@ def run(ctx) -> None:
     ctx.guard(r10_6)
     ctx.guard(r10_7_8)
     ctx.guard(r10_9)
+    ctx.guard(r10_10)
     ctx.assume("Python comparison semantics on the claim values (exotic value types are outside the statement)")
     ctx.note("whether exp == now - leeway is still valid is left open by the statement: both `<` and `<=` are accepted for exp")
